@@ -7,6 +7,7 @@
 package main
 
 import (
+	"verif/harness/pipe"
 	"fmt"
 	"sort"
 	"strconv"
@@ -778,7 +779,14 @@ func main() {
 	it := &interp{}
 	it.reset(psh.Conf{Ver: "1.0.0", MRS: int(sarama.MaxRequestSize), MMB: 1000000})
 	if lines := run.ReplayLines(); lines != nil {
-		it.replay(lines)
+		var own []string
+		for _, l := range lines {
+			if !strings.HasPrefix(l, "sc ") { // "sc <seed>" = a pipeline scenario, replayed below
+				own = append(own, l)
+			}
+		}
+		it.replay(own)
+		pipe.OracleOnly(run, "C04", []string{"C04:"}, 0)
 		run.Finish("replay")
 		return
 	}
@@ -804,6 +812,9 @@ func main() {
 			}
 		}
 	}
+	// end-to-end: the real pipeline against the simulated cluster (broker latency, tight limits, fault scripts);
+	// the C04 oracles are evaluated on what the brokers received and on the success events
+	pipe.OracleOnly(run, "C04", []string{"C04:"}, 160)
 	run.Finish("cases: version (9 releases spanning message v0, v1, record batch v2, produce v7) x codec (none/gzip/snappy/lz4/zstd, levels) x 1..3 rounds of 1..400 messages " +
 		"(nil/empty/small/large keys and values, header lists, timestamps none/all/mixed incl. 0 and year 9999) over 1..9 partitions, bases up to 2^62; " +
 		"responses with success / retriable / fatal codes, missing blocks, NoResponse, log-append time. non-trivial = distinct (version, codec, message count, partition count)")
